@@ -6,6 +6,7 @@ import (
 	"encoding/json"
 	"fmt"
 	"strings"
+	"sync"
 
 	"github.com/onflow/cadence"
 
@@ -73,30 +74,69 @@ type robustStats struct {
 	rtErrors int64 // errors that wrap a recovered Go run-time error
 }
 
-// jsonRobustDoc runs every edit of one document; report is called for each crash.
-func jsonRobustDoc(doc []byte, byteLevel bool, st *robustStats, report func(kind string, input []byte, o outcome)) {
-	try := func(kind string) func(m []byte) {
-		return func(m []byte) {
-			o := jsonDec(m)
-			st.evals++
-			switch {
-			case o.panicV != nil:
-				report(kind, append([]byte(nil), m...), o)
-			case o.err != nil:
-				st.errDec++
-			default:
-				st.okDec++
+var (
+	c41CorpusOnce sync.Once
+	c41DocsV      [][]byte
+	c41ByteLevel  []bool
+)
+
+// c41Corpus: the distinct encodings of Values(cdepth); byte-level edits are
+// applied only to those that are also encodings of Values(cdepth-1).
+func c41Corpus(env *mc.Env) ([][]byte, []bool) {
+	c41CorpusOnce.Do(func() {
+		cdepth := mc.Pick(env, 1, 2)
+		inSmall := map[string]bool{}
+		for _, v := range cdcval.Values(cdepth - 1) {
+			if o := jsonEnc(v); o.ok() {
+				inSmall[string(o.bytes)] = true
 			}
 		}
-	}
-	st.docs++
-	if byteLevel {
-		byteEdits(doc, 0, try("byte-edit"))
-	}
-	jsonStructuralEdits(doc, try("structural-edit"))
+		seen := map[string]bool{}
+		for _, v := range cdcval.Values(cdepth) {
+			o := jsonEnc(v)
+			if o.ok() && !seen[string(o.bytes)] {
+				seen[string(o.bytes)] = true
+				c41ByteLevel = append(c41ByteLevel, inSmall[string(o.bytes)])
+				c41DocsV = append(c41DocsV, bytes.TrimSpace(o.bytes))
+			}
+		}
+	})
+	return c41DocsV, c41ByteLevel
+}
+
+var c41Job = robustJob{
+	codec: "json",
+	docs: func(env *mc.Env) [][]byte {
+		d, _ := c41Corpus(env)
+		return d
+	},
+	edits: func(env *mc.Env, i int, doc []byte, f func(kind string, input []byte)) {
+		_, byteLevel := c41Corpus(env)
+		if byteLevel[i] {
+			byteEdits(doc, 0, func(m []byte) { f("byte-edit", m) })
+		}
+		jsonStructuralEdits(doc, func(m []byte) { f("structural-edit", m) })
+	},
+	decode: func(kind string, input []byte, st *robustStats, report func(sig string, c valueCase, detail string)) {
+		o := jsonDec(input)
+		st.evals++
+		switch {
+		case o.panicV != nil:
+			report("json.Decode|"+kind+"|panic:"+panicClass(o.panicV),
+				valueCase{Part: "robust", Codec: "json", Hex: hex.EncodeToString(input), Print: trunc(string(input), 600)},
+				o.describe())
+		case o.err != nil:
+			st.errDec++
+		default:
+			st.okDec++
+		}
+	},
 }
 
 func runC41(env *mc.Env) {
+	if robustDispatch(env, c41Job) {
+		return
+	}
 	depth := mc.Pick(env, 2, 3)
 	vals := cdcval.Values(depth)
 	env.R.Set("values", len(vals))
@@ -120,55 +160,32 @@ func runC41(env *mc.Env) {
 		env.R.Violation("json|"+where+"|"+class, mkCase(depth, i, "roundtrip", v), detail)
 	})
 
-	// Part B: robustness of the decoder on edited encodings of the depth-1 corpus
+	// Part B: robustness of the decoder on edited encodings, in worker subprocesses
 	cdepth := mc.Pick(env, 1, 2)
-	corpus := cdcval.Values(cdepth)
-	var docs [][]byte
-	seen := map[string]bool{}
-	// byte-level edits only on the encodings of the smaller corpus Values(cdepth-1)
-	byteLevel := map[int]bool{}
-	inSmall := map[string]bool{}
-	for _, v := range cdcval.Values(cdepth - 1) {
-		if o := jsonEnc(v); o.ok() {
-			inSmall[string(o.bytes)] = true
-		}
-	}
-	for _, v := range corpus {
-		o := jsonEnc(v)
-		if o.ok() && !seen[string(o.bytes)] {
-			seen[string(o.bytes)] = true
-			byteLevel[len(docs)] = inSmall[string(o.bytes)]
-			docs = append(docs, bytes.TrimSpace(o.bytes))
+	docs, byteLevel := c41Corpus(env)
+	nByte := 0
+	for _, b := range byteLevel {
+		if b {
+			nByte++
 		}
 	}
 	env.R.Set("robust_corpus_docs", len(docs))
-	env.R.Set("robust_corpus_docs_byte_level", len(inSmall))
-	stats := make([]robustStats, len(docs))
-	mc.ParallelFor(env, len(docs), func(i int) {
-		jsonRobustDoc(docs[i], byteLevel[i], &stats[i], func(kind string, input []byte, o outcome) {
-			env.R.Violation("json.Decode|"+kind+"|panic:"+panicClass(o.panicV),
-				valueCase{Part: "robust", Codec: "json", Hex: hex.EncodeToString(input), Print: trunc(string(input), 600)},
-				o.describe())
-		})
-	})
-	var tot robustStats
-	for _, s := range stats {
-		tot.evals += s.evals
-		tot.okDec += s.okDec
-		tot.errDec += s.errDec
-		tot.docs += s.docs
-	}
+	env.R.Set("robust_corpus_docs_byte_level", nByte)
+	tot := runRobust(env, c41Job)
 	env.R.EvalN(tot.evals)
 	env.R.ClassN("edited-input:decoded", tot.okDec)
 	env.R.ClassN("edited-input:error", tot.errDec)
 	env.R.Set("robust_edits", tot.evals)
-	env.R.BoundCompleted(fmt.Sprintf("round trips: Values(%d); edits: every single structural edit of %d encodings of Values(%d), every single byte edit of the %d encodings of Values(%d)", depth, len(docs), cdepth, len(inSmall), cdepth-1))
+	env.R.BoundCompleted(fmt.Sprintf("round trips: Values(%d); edits: every single structural edit of %d encodings of Values(%d), every single byte edit of the %d encodings of Values(%d); decoding isolated in worker processes", depth, len(docs), cdepth, nByte, cdepth-1))
 }
 
 func replayC41(env *mc.Env, raw json.RawMessage) (bool, string) {
 	var c valueCase
 	if err := json.Unmarshal(raw, &c); err != nil {
 		return false, err.Error()
+	}
+	if c.Part == "robust-fatal" {
+		return replayFatal(env, c)
 	}
 	if c.Part == "robust" {
 		o := jsonDec(c.bytes())
